@@ -140,16 +140,14 @@ def Machine.reachable (M : Machine) : Array Bool :=
   M.reachFrom (M.states.size + 1) (M.start :: natsOf M M.startActs.targets)
     (Array.replicate M.states.size false)
 
+def keptB (keep : Array Bool) (i : Nat) : Bool := keep.getD i false
+
+/-- new index of a kept state: the number of kept states before it -/
+def rank (keep : Array Bool) (i : Nat) : Nat := ((List.range i).filter (keptB keep)).length
+
 /-- new index of every old state: its rank among the kept ones, -1 for a removed one -/
-def renumber (keep : Array Bool) : Array Int := Id.run do
-  let mut out : Array Int := #[]
-  let mut k : Int := 0
-  for b in keep do
-    if b then
-      out := out.push k
-      k := k + 1
-    else out := out.push (-1)
-  return out
+def renumber (keep : Array Bool) (n : Nat) : Array Int :=
+  ((List.range n).map fun i => if keptB keep i then (rank keep i : Int) else -1).toArray
 
 def renT (ren : Array Int) (t : Int) : Int :=
   if t < 0 then -1 else ren.getD t.toNat (-1)
@@ -175,11 +173,21 @@ def Arm.rename (ren : Array Int) (a : Arm) : Arm :=
 def St.rename (ren : Array Int) (s : St) : St := { s with arms := s.arms.map (Arm.rename ren) }
 
 def Machine.removeStates (M : Machine) (keep : Array Bool) : Machine :=
-  let ren := renumber keep
-  let kept := (List.range M.states.size).filter fun i => keep.getD i false
+  let ren := renumber keep M.states.size
+  let kept := (List.range M.states.size).filter (keptB keep)
   { M with states := (kept.map fun i => (M.st i).rename ren).toArray,
            start := (renT ren M.start).toNat,
            startActs := M.startActs.rename ren }
+
+/-- a state reference the renumbering handles: "no state" (negative) or a kept state of the table -/
+def goodB (M : Machine) (keep : Array Bool) (t : Int) : Bool :=
+  decide (t < 0) || (decide (t.toNat < M.states.size) && keep.getD t.toNat false)
+
+/-- every state reference of every kept state (transition targets, out-of-space redirects, loop ends of breaks)
+    is "none" or a kept state of the table: the hypothesis of `C05_remove_states_preserves`, decidable -/
+def Machine.closedUnder (M : Machine) (keep : Array Bool) : Bool :=
+  (List.range M.states.size).all fun i =>
+    !keep.getD i false || (M.st i).arms.all fun a => goodB M keep a.target && a.acts.targets.all (goodB M keep)
 
 def Machine.removeInaccessible (M : Machine) : Machine := M.removeStates M.reachable
 
